@@ -1,5 +1,6 @@
 // Replay harness for tulz::Array (C14): executes histories from the TLC graph of ArrayP (X) or
 // from the random generator (Y) and reports the public observations and the lifetime registry.
+#include <cmath>
 #include <cstdint>
 #include <cstdlib>
 #include <string>
@@ -25,8 +26,12 @@ struct Val<int> {
 };
 template <>
 struct Val<double> {
-    static double make(int v) { return v + 0.5; }
-    static long get(const double &x) { return (x - 0.5 == (double) (long) (x - 0.5)) ? (long) (x - 0.5) : -9; }
+    // two of the values are the zeros: "exactly those values" includes the sign of a zero (-0.0 == 0.0, but 1/x differs)
+    static double make(int v) { return v == 2 ? -0.0 : v == 9 ? 0.0 : v + 0.5; }
+    static long get(const double &x) {
+        if (x == 0) return std::signbit(x) ? 2 : 9;
+        return (x - 0.5 == (double) (long) (x - 0.5)) ? (long) (x - 0.5) : -9;
+    }
 };
 template <>
 struct Val<std::string> {
